@@ -4,6 +4,7 @@ package main
 // node, plus a separate malformed stream.  Every random choice comes from one Rng.
 
 import (
+	"bytes"
 	"fmt"
 	"hash"
 	"math/big"
@@ -38,6 +39,7 @@ type World struct {
 	Weights  map[string]int // tx kind weights
 	Owner    map[types.Pubkey]Acct
 	GasFromHeld bool // pay the commission in a custom coin the sender holds, half of the time
+	OddChecks   bool // a quarter of the issued checks are validly signed but structurally unusual (lock longer/shorter than 65 bytes, long nonce)
 	Control  map[types.Pubkey]types.Address // control address where it differs from the owner's (set by accepted EditCandidate)
 	CoinOwner map[types.CoinID]Acct
 	Stakes   []stakeRef
@@ -569,6 +571,19 @@ func (w *World) mkCheck(issuer, redeemer Acct, coin types.CoinID, value *big.Int
 		panic(err)
 	}
 	chk.Lock = big.NewInt(0).SetBytes(lock)
+	if nv, _ := strconv.Atoi(string(nonceB)); w.OddChecks && nv%4 == 0 {
+		// the issuer's signature covers the lock, so these reach the code behind the signature checks
+		switch (nv / 4) % 4 {
+		case 0:
+			chk.Lock = big.NewInt(0).SetBytes(append([]byte{1}, lock...)) // 66 bytes
+		case 1:
+			chk.Lock = big.NewInt(0).SetBytes(append(bytes.Repeat([]byte{0xff}, 8), lock...)) // 73 bytes
+		case 2:
+			chk.Lock = big.NewInt(0).SetBytes(lock[3:]) // 62 bytes
+		default:
+			chk.Nonce = append(chk.Nonce, bytes.Repeat([]byte{'9'}, 12)...) // 13-18 byte nonce, around the 16-byte limit
+		}
+	}
 	if err := chk.Sign(issuer.Key); err != nil {
 		panic(err)
 	}
